@@ -752,6 +752,40 @@ func (e *SpecEnv) callExpr(n *Node) *SVal {
 		s2 := e.sum([]*Node{args[0], args[1], args[2], args[4]})
 		pw := e.quant("forall", []*Node{args[0], args[1], args[2], {Op: "==", Args: []*Node{args[3], args[4]}}})
 		return boolVal(sImp(pw.Term, sEq(s1.Term, s2.Term)))
+	case "resultof":
+		// resultof(Name, i): i-th result of the latest call to Name (or Type.Name) that
+		// dominates the current point of this function
+		need(2)
+		nm := args[0].String()
+		var i int
+		fmt.Sscan(args[1].Name, &i)
+		T, ok := x.resTypes[nm]
+		if !ok {
+			if e.freshUnknown {
+				return intVal(x.em.Fresh("undef.resultof", "Int"))
+			}
+			sfail("resultof(%s): no call of that name before this point", nm)
+		}
+		k := 0
+		whole := buildVal(T, func(l Leaf) string {
+			t := x.heapGet(e.heap, fmt.Sprintf("$res:%s:%d", nm, k), l.Sort)
+			k++
+			return t
+		})
+		if whole.F != nil && kindOf(T) == KTuple {
+			if i < 0 || i >= len(whole.F) {
+				sfail("resultof: index out of range")
+			}
+			r := whole.F[i]
+			if r.T == nil {
+				r.T = T.(*types.Tuple).At(i).Type()
+			}
+			return r
+		}
+		if i != 0 {
+			sfail("resultof: single result")
+		}
+		return whole
 	case "called":
 		// called(Name): a call to a function or method called Name has been executed earlier
 		// in this function (ghost state maintained by the generator for contracts with guards)
